@@ -32,6 +32,18 @@ def stepLine (st : Nat × List String) (line : String) : (Nat × List String) ×
         (st, (if r.2 then "done " else "more ") ++ showOut r.1.out)
       | none => (st, "bad-op")
     | _ => (st, "bad-op")
+  | "life" :: rest =>
+    -- ops: s (start) t (stop) p<epr> c<epr>
+    let ops := rest.filterMap (fun (w : String) =>
+      if w == "s" then some UdpLife.Op.start else if w == "t" then some UdpLife.Op.stop
+      else match w.toList with
+        | 'p' :: ds => (String.ofList ds).toNat?.map UdpLife.Op.publish
+        | 'c' :: ds => (String.ofList ds).toNat?.map UdpLife.Op.clear
+        | _ => none)
+    let outs := UdpLife.run {} ops
+    (st, " ".intercalate (outs.map (fun o => match o with
+      | none => "raise"
+      | some l => "[" ++ "".intercalate (l.map (fun b => if b then "A" else "D")) ++ "]")))
   | ["maxlen", n] => match n.toNat? with
     | some k => ((k, []), "ok")
     | none => (st, "bad-op")
